@@ -179,6 +179,32 @@ var subC13Cuts = &fw.Sub{
 	},
 }
 
+// openStream delivers data in pieces of per bytes and then stays open: a further Read would block forever,
+// which is recorded (and answered with an error so that the caller comes back).
+type openStream struct {
+	data    []byte
+	per     int
+	pos     int
+	blocked bool
+}
+
+func (s *openStream) Read(p []byte) (int, error) {
+	if s.pos >= len(s.data) {
+		s.blocked = true
+		return 0, fmt.Errorf("this read would block forever")
+	}
+	n := s.per
+	if n > len(p) {
+		n = len(p)
+	}
+	if n > len(s.data)-s.pos {
+		n = len(s.data) - s.pos
+	}
+	copy(p, s.data[s.pos:s.pos+n])
+	s.pos += n
+	return n, nil
+}
+
 type c13Header struct {
 	Kind string `json:"kind"` // magic | version
 	Hi   int    `json:"hi"`   // first byte; the second runs over 0..255
@@ -206,6 +232,21 @@ var subC13Header = &fw.Sub{
 			} else {
 				d[2], d[3] = byte(c.Hi), byte(lo)
 				accept = c.Hi == 1 && lo <= 1
+			}
+			if !accept {
+				// the same header on a stream that stays open: once the four header bytes have been delivered the
+				// loader must reject without asking for more (another Read would block forever)
+				for _, per := range []int{4, 1, 2} {
+					sr := &openStream{data: d[:4], per: per}
+					_, err, _, _ := impl.Load(sr)
+					fw.Tally("loads", 1)
+					if sr.blocked {
+						return fw.Failf("a bad header is rejected as soon as it has arrived", "%s %02x %02x (%d bytes per read): the loader asked for more input after the 4 header bytes; on a pipe or socket that stays open it would hang", c.Kind, c.Hi, lo, per)
+					}
+					if err == nil {
+						return fw.Failf("error for wrong magic / unsupported version", "%s %02x %02x (open stream): loaded without error", c.Kind, c.Hi, lo)
+					}
+				}
 			}
 			for _, mode := range []string{"whole", "byte"} {
 				err, pan := loadPrefix(d, mode)
@@ -239,7 +280,7 @@ func init() {
 		Level: "fault_enumeration",
 		Rule: "for every accepted program of the core corpus K and the scaled families S: every cut point 0..len-1 of its dump " +
 			"(quick: all cuts for dumps <=4 kB, section boundaries ±9 / first+last 64 / every 97th for larger ones), delivered whole, one byte per read, whole with the disassembly/trace/statistics options on, through a reader that also has Close and Name (like *os.File), and followed by a retry on the same Prog (the prefix again, then the complete dump, which must load and dump back byte-identically); " +
-			"all 2^16 magic values and 2^16 version pairs. A case is a (program, delivery, cut range); non-trivial = at least one load executed; " +
+			"all 2^16 magic values and 2^16 version pairs, each also on a stream that stays open after the four header bytes (delivered 4, 2 or 1 bytes per read): the loader must reject without asking for more input. A case is a (program, delivery, cut range); non-trivial = at least one load executed; " +
 			"counters.cut_points counts the loads of proper prefixes.",
 		Subs:           []*fw.Sub{subC13Cuts, subC13Header},
 		BudgetQuick:    100,
